@@ -1,6 +1,6 @@
 // C18 — time, duration and size formatting is total and value-faithful.
 //
-// Parts (select with --arg only=<part>; default = duration+carry+ties+time+history+size+timeval):
+// Parts (select with --arg only=<part>; default = duration+carry+ties+time+history+pairs+size+timeval):
 //   duration  every microsecond in B +- W around the unit boundaries (1 s, 60 s, 3600 s, 86400 s)
 //             x precision -1..6; W = 2 s in thorough (exhaustive), 20 ms in quick
 //   ties      decimal rounding ties of the seconds field, t = (m + 0.5) * 10^(6-p) us for p = 0..5 (all of them for
@@ -11,6 +11,10 @@
 //             *not* gmtime) for 1970..9999; TZ is set to a non-UTC zone so a local-time rendering shows
 //   history   call histories on one thread and on four concurrent threads: format_time_natural (local time, NOT judged)
 //             on the same / neighbouring second, format_duration, format_size, then format_time -> must be UTC
+//   pairs     call PAIRS / triples of every function on one thread, on two concurrent threads and ping-ponged between two
+//             threads: f(a), f(b) with b = a + d, d from a structured delta table (0, +-1 unit, +-(half) a printed digit,
+//             cell boundaries, +-k*2^j in every natural unit + small remainder, other precision / flag, f's own round trip);
+//             every result judged by the oracles below exactly as if the call had been made alone (c18_pairs.hh)
 //   size      format_size / parse_size agreement at every power-of-1024 boundary, rounding ties, random
 //   timeval   usecs_to_timeval / timeval_to_usecs exact inverses
 //   dump      writes (t, text) and (usecs, precision, text) lines to <out>.c18dump for the Python oracle
@@ -138,7 +142,57 @@ static u128 pow10u(int k) {
 
 static uint64_t n_dur_throw = 0;
 
-// One call of the real code + the oracle.  `tag` only labels the coverage class.
+// The duration ORACLE proper: a pure function of (input, precision, printed text) — no shared state, so that the
+// call-pair workers (c18_pairs.hh) can use it from any thread.
+struct DurVerdict {
+  DurText d;
+  int nbad = 0;
+  const char* kind[4] = {"", "", "", ""};  // "shape" | "padding" | "precision-digits" | "value"
+  string what[4];
+  bool tie = false;
+  void add(const char* k, const string& w) {
+    if (nbad < 4) {
+      kind[nbad] = k;
+      what[nbad] = w;
+      nbad++;
+    }
+  }
+};
+
+static void judge_duration_text(uint64_t us, int p, const string& text, DurVerdict& v) {
+  v.d = parse_duration_text(text);
+  const DurText& d = v.d;
+  if (!d.ok) {
+    v.add("shape", string("text is not [d:][hh:][mm:]ss[.f]: ") + d.err);
+    return;
+  }
+  // inner fields (every field after the first) are zero-padded to exactly two integer digits
+  for (int k = 1; k < d.nfields; k++) {
+    if (d.width[k] != 2) {
+      v.add("padding", fmt("field %d of %d has %d integer digits (inner fields must be zero-padded to 2)", k + 1, d.nfields, d.width[k]));
+      break;
+    }
+  }
+  if (p >= 0 && d.fdigits != p) v.add("precision-digits", fmt("%d fraction digits printed for precision %d", d.fdigits, p));
+  // exact evaluation
+  int f = d.fdigits;
+  int F = f > 6 ? f : 6;
+  u128 secs = 0;
+  {
+    // right-aligned: last = s, then m, h, d
+    static const uint64_t mul[4] = {1, 60, 3600, 86400};
+    for (int k = 0; k < d.nfields; k++) secs += (u128)d.val[d.nfields - 1 - k] * mul[k];
+  }
+  u128 evalF = secs * pow10u(F) + (u128)d.frac * pow10u(F - f);
+  u128 usF = (u128)us * pow10u(F - 6);
+  u128 diff = evalF > usF ? evalF - usF : usF - evalF;
+  u128 unit = pow10u(F - f);  // one unit in the last printed place
+  if (diff * 2 > unit)
+    v.add("value", fmt("text evaluates %s the input by more than half a unit of the last printed digit (%d fraction digits)", evalF > usF ? "above" : "below", f));
+  v.tie = diff * 2 == unit;
+}
+
+// One call of the real code + the oracle.
 static void check_duration(uint64_t us, int p) {
   C->evaluations++;
   C->crumb_n("format_duration", us, (uint64_t)(int64_t)p);
@@ -159,41 +213,14 @@ static void check_duration(uint64_t us, int p) {
     return;
   }
   auto kase = [&]() { return fmt("format_duration(%" PRIu64 ", %d) = \"%s\"", us, p, text.c_str()); };
-  DurText d = parse_duration_text(text);
-  if (!d.ok) {
-    C->violation(fmt("format_duration:shape:%s", br), string("text is not [d:][hh:][mm:]ss[.f]: ") + d.err, kase());
-    return;
-  }
-  // inner fields (every field after the first) are zero-padded to exactly two integer digits
-  for (int k = 1; k < d.nfields; k++) {
-    if (d.width[k] != 2) {
-      C->violation(fmt("format_duration:padding:%s", br),
-          fmt("field %d of %d has %d integer digits (inner fields must be zero-padded to 2)", k + 1, d.nfields, d.width[k]), kase());
-      break;
-    }
-  }
-  if (p >= 0 && d.fdigits != p)
-    C->violation(fmt("format_duration:precision-digits:%s", br), fmt("%d fraction digits printed for precision %d", d.fdigits, p), kase());
-  // exact evaluation
-  int f = d.fdigits;
-  int F = f > 6 ? f : 6;
-  u128 secs = 0;
-  {
-    // right-aligned: last = s, then m, h, d
-    static const uint64_t mul[4] = {1, 60, 3600, 86400};
-    for (int k = 0; k < d.nfields; k++) secs += (u128)d.val[d.nfields - 1 - k] * mul[k];
-  }
-  u128 evalF = secs * pow10u(F) + (u128)d.frac * pow10u(F - f);
-  u128 usF = (u128)us * pow10u(F - 6);
-  u128 diff = evalF > usF ? evalF - usF : usF - evalF;
-  u128 unit = pow10u(F - f);  // one unit in the last printed place
-  if (diff * 2 > unit)
-    C->violation(fmt("format_duration:value:%s", br),
-        fmt("text evaluates %s the input by more than half a unit of the last printed digit (%d fraction digits)", evalF > usF ? "above" : "below", f),
-        kase());
+  DurVerdict v;
+  judge_duration_text(us, p, text, v);
+  for (int k = 0; k < v.nbad; k++) C->violation(fmt("format_duration:%s:%s", v.kind[k], br), v.what[k], kase());
+  const DurText& d = v.d;
+  if (!d.ok) return;
   // coverage class: branch x precision x shape of the seconds field
   uint64_t sv = d.val[d.nfields - 1];
-  const char* shape = sv >= 60 && d.nfields > 1 ? "carry60" : (d.nfields > 1 && sv < 10) ? "pad0" : (diff * 2 == unit) ? "tie" : "plain";
+  const char* shape = sv >= 60 && d.nfields > 1 ? "carry60" : (d.nfields > 1 && sv < 10) ? "pad0" : v.tie ? "tie" : "plain";
   C->cls(fmt("dur:%s:p%d:%s", br, p, shape));
   if (dumpf) fprintf(dumpf, "D\t%" PRIu64 "\t%d\t%s\n", us, p, text.c_str());
 }
@@ -370,6 +397,17 @@ static string civil_text(uint64_t t) {
 }
 
 static const uint64_t T_MAX = 253402300799ULL * US + 999999;  // 9999-12-31 23:59:59.999999
+
+// Pure comparison against the table-walk calendar (thread-safe; used by the call-pair workers): nullptr when the text
+// is right, else which part differs.
+static const char* time_mismatch(uint64_t t, const string& text, string& want) {
+  want = civil_text(t);
+  if (text == want) return nullptr;
+  if (text.size() != want.size()) return "shape";
+  if (text.compare(0, 10, want, 0, 10) != 0) return "date";
+  if (text.compare(0, 19, want, 0, 19) != 0) return "time-of-day";
+  return "microseconds";
+}
 
 static void check_time(uint64_t t, const char* kind) {
   if (t > T_MAX) return;
@@ -623,6 +661,62 @@ static const char* mag_of(uint64_t s) {
   return names[k];
 }
 
+// The size ORACLE proper, a pure function of (s, include_bytes, text printed by format_size, value parse_size made of
+// that text).  Thread-safe; shared by check_size and the call-pair workers.
+struct SizeVerdict {
+  bool shape_bad = false;
+  bool not_demanded_16eb = false;  // "16.00 EB" printed
+  bool skip = false;               // ... and include_bytes=false: nothing is demanded
+  bool bad = false;
+  string key_tail;  // "<parse_size|format_size>:<unit>:<with-bytes|unit-only>"
+  string what;
+  string unit_name;  // "bytes" | "KB" ...
+};
+
+static void judge_size_text(uint64_t s, int incl, const string& text, uint64_t back, SizeVerdict& v) {
+  // own reading of the text: head "<n> bytes" and/or "<w>.<cc> <U>B"
+  string unit_part = text, bytes_part;
+  if (incl) {
+    size_t po = text.find(" (");
+    if (po != string::npos && text.size() && text.back() == ')') {
+      bytes_part = text.substr(0, po);
+      unit_part = text.substr(po + 2, text.size() - po - 3);
+    }
+  }
+  SizeText ut = read_size_text(unit_part);
+  SizeText bt = bytes_part.empty() ? SizeText() : read_size_text(bytes_part);
+  if (!ut.ok || (!bytes_part.empty() && !(bt.ok && bt.bytes_form))) {
+    v.shape_bad = true;
+    return;
+  }
+  v.unit_name = ut.bytes_form ? "bytes" : fmt("%cB", UNITS[ut.unit]);
+  if (!ut.bytes_form && ut.unit == 5 && ut.whole >= 16) {
+    // printed value 16.00 EB is not representable in size_t: not demanded (only with include_bytes=false)
+    v.not_demanded_16eb = true;
+    if (!incl) {
+      v.skip = true;
+      return;
+    }
+  }
+  // tolerance: exact when the most precise printed quantity is a byte count; otherwise half of the last
+  // printed digit (0.005 unit) + float conversion slack (0.0001 unit) + 2 bytes of truncation
+  bool exact = ut.bytes_form || (bt.ok && bt.bytes_form);
+  uint64_t unit = ut.bytes_form ? 1 : (1ULL << (10 * (ut.unit + 1)));
+  u128 diff = back > s ? (u128)(back - s) : (u128)(s - back);
+  bool bad = exact ? diff != 0 : (diff * 10000 > (u128)unit * 51 + 20000);
+  if (bad) {
+    // localise: does our own reading of the text agree with s?
+    u128 own = ut.bytes_form ? (u128)ut.n : ((u128)(ut.whole * 100 + ut.cents) * unit) / 100;
+    if (bt.ok && bt.bytes_form) own = bt.n;
+    u128 od = own > s ? own - (u128)s : (u128)s - own;
+    bool text_ok = exact ? od == 0 : (od * 10000 <= (u128)unit * 51 + 20000);
+    v.bad = true;
+    v.key_tail = fmt("%s:%s:%s", text_ok ? "parse_size" : "format_size", v.unit_name.c_str(), incl ? "with-bytes" : "unit-only");
+    v.what = exact ? "parse_size(format_size(s)) != s although the text prints the exact byte count"
+                   : "parse_size(format_size(s)) differs from s by more than 0.0051 unit + 2 bytes";
+  }
+}
+
 static void check_size(uint64_t s, const char* kind) {
   C->evaluations++;
   C->crumb_n("format_size", s);
@@ -640,50 +734,36 @@ static void check_size(uint64_t s, const char* kind) {
       continue;
     }
     auto kase = [&]() { return fmt("format_size(%" PRIu64 ", %s) = \"%s\"; parse_size(that) = %" PRIu64, s, incl ? "true" : "false", text.c_str(), back); };
-    // own reading of the text: head "<n> bytes" and/or "<w>.<cc> <U>B"
-    string unit_part = text, bytes_part;
-    if (incl) {
-      size_t po = text.find(" (");
-      if (po != string::npos && text.size() && text.back() == ')') {
-        bytes_part = text.substr(0, po);
-        unit_part = text.substr(po + 2, text.size() - po - 3);
-      }
-    }
-    SizeText ut = read_size_text(unit_part);
-    SizeText bt = bytes_part.empty() ? SizeText() : read_size_text(bytes_part);
-    if (!ut.ok || (!bytes_part.empty() && !(bt.ok && bt.bytes_form))) {
+    SizeVerdict v;
+    judge_size_text(s, incl, text, back, v);
+    if (v.shape_bad) {
       C->violation(fmt("size:shape:%s", mag), "format_size text is neither \"<n> bytes\", \"<w>.<cc> <U>B\" nor \"<n> bytes (<w>.<cc> <U>B)\"", kase());
       continue;
     }
-    if (!ut.bytes_form && ut.unit == 5 && ut.whole >= 16) {
-      // printed value 16.00 EB is not representable in size_t: not demanded (only with include_bytes=false)
-      C->cls(fmt("size:EB:%d:16EB-not-demanded", incl));
-      if (!incl) continue;
-    }
-    // tolerance: exact when the most precise printed quantity is a byte count; otherwise half of the last
-    // printed digit (0.005 unit) + float conversion slack (0.0001 unit) + 2 bytes of truncation
-    bool exact = ut.bytes_form || (bt.ok && bt.bytes_form);
-    uint64_t unit = ut.bytes_form ? 1 : (1ULL << (10 * (ut.unit + 1)));
-    u128 diff = back > s ? (u128)(back - s) : (u128)(s - back);
-    bool bad = exact ? diff != 0 : (diff * 10000 > (u128)unit * 51 + 20000);
-    if (bad) {
-      // localise: does our own reading of the text agree with s?
-      u128 own = ut.bytes_form ? (u128)ut.n : ((u128)(ut.whole * 100 + ut.cents) * unit) / 100;
-      if (bt.ok && bt.bytes_form) own = bt.n;
-      u128 od = own > s ? own - (u128)s : (u128)s - own;
-      bool text_ok = exact ? od == 0 : (od * 10000 <= (u128)unit * 51 + 20000);
-      C->violation(fmt("size:%s:%s:%s", text_ok ? "parse_size" : "format_size", ut.bytes_form ? "bytes" : fmt("%cB", UNITS[ut.unit]).c_str(), incl ? "with-bytes" : "unit-only"),
-          exact ? "parse_size(format_size(s)) != s although the text prints the exact byte count"
-                : "parse_size(format_size(s)) differs from s by more than 0.0051 unit + 2 bytes",
-          kase());
-    }
-    C->cls(fmt("size:%s:%d:%s", ut.bytes_form ? "bytes" : fmt("%cB", UNITS[ut.unit]).c_str(), incl, kind));
+    if (v.not_demanded_16eb) C->cls(fmt("size:EB:%d:16EB-not-demanded", incl));
+    if (v.skip) continue;
+    if (v.bad) C->violation("size:" + v.key_tail, v.what, kase());
+    C->cls(fmt("size:%s:%d:%s", v.unit_name.c_str(), incl, kind));
     if (dumpf) fprintf(dumpf, "S\t%" PRIu64 "\t%d\t%s\t%" PRIu64 "\n", s, incl, text.c_str(), back);
   }
 }
 
 // reverse direction: the value of a canonical text "<w>.<cc> <U>B" must survive parse_size -> format_size to
 // within one unit of the last printed digit (whatever unit format_size chooses to print it in).
+// pure: does `again` (= format_size(parse_size("<whole>.<cents> <U>B"))) print the value of that text again?
+static bool size_reverse_ok(unsigned whole, unsigned cents, int unit, const string& again) {
+  SizeText t2 = read_size_text(again);
+  // compare *values* (in hundredths of a byte), not spellings: "1024.00 KB" for "1.00 MB" agrees to the printed
+  // precision.  Tolerance: one unit of the last printed digit of the coarser of the two texts + 2 bytes.
+  if (!t2.ok) return false;
+  u128 u1 = (u128)1 << (10 * (unit + 1));
+  u128 u2 = t2.bytes_form ? (u128)1 : ((u128)1 << (10 * (t2.unit + 1)));
+  u128 x1 = (u128)((uint64_t)whole * 100 + cents) * u1;
+  u128 x2 = t2.bytes_form ? (u128)t2.n * 100 : (u128)(t2.whole * 100 + t2.cents) * u2;
+  u128 d = x1 > x2 ? x1 - x2 : x2 - x1;
+  return d <= (u1 > u2 ? u1 : u2) + 200;
+}
+
 static void check_size_reverse(unsigned whole, unsigned cents, int unit) {
   C->evaluations++;
   string text = fmt("%u.%02u %cB", whole, cents, UNITS[unit]);
@@ -692,20 +772,8 @@ static void check_size_reverse(unsigned whole, unsigned cents, int unit) {
   uint64_t v = phosg::parse_size(text.c_str());
   vf::poison_errno();
   string again = phosg::format_size((size_t)v, false);
-  SizeText t2 = read_size_text(again);
   auto kase = [&]() { return fmt("parse_size(\"%s\") = %" PRIu64 "; format_size(that) = \"%s\"", text.c_str(), v, again.c_str()); };
-  // compare *values* (in hundredths of a byte), not spellings: "1024.00 KB" for "1.00 MB" agrees to the printed
-  // precision.  Tolerance: one unit of the last printed digit of the coarser of the two texts + 2 bytes.
-  bool ok = t2.ok;
-  if (ok) {
-    u128 u1 = (u128)1 << (10 * (unit + 1));
-    u128 u2 = t2.bytes_form ? (u128)1 : ((u128)1 << (10 * (t2.unit + 1)));
-    u128 x1 = (u128)((uint64_t)whole * 100 + cents) * u1;
-    u128 x2 = t2.bytes_form ? (u128)t2.n * 100 : (u128)(t2.whole * 100 + t2.cents) * u2;
-    u128 d = x1 > x2 ? x1 - x2 : x2 - x1;
-    ok = d <= (u1 > u2 ? u1 : u2) + 200;
-  }
-  if (!ok)
+  if (!size_reverse_ok(whole, cents, unit, again))
     C->violation(fmt("size:reverse:%cB", UNITS[unit]), "format_size(parse_size(text)) does not print the value of text again (to one unit of the last digit)", kase());
   C->cls(fmt("size:reverse:%cB", UNITS[unit]));
 }
@@ -819,6 +887,11 @@ static void timeval_suite(vf::Rng& r) {
 }
 
 // --------------------------------------------------------------------------------------------------------
+// call pairs / call histories of every function (part "pairs")
+
+#include "c18_pairs.hh"
+
+// --------------------------------------------------------------------------------------------------------
 
 int main(int argc, char** argv) {
   vf::Ctx& c = vf::init(argc, argv);
@@ -851,6 +924,7 @@ int main(int argc, char** argv) {
     duration_carry(r, true);
     // sizes are cheap: dump a log-uniform sample
     for (int i = 0; i < 2000; i++) check_size(r.next() >> r.below(60), "dump");
+    pair_suite(true);
     fclose(dumpf);
     dumpf = nullptr;
     // the inline oracles above (duration, size) did run in dump mode; time was not judged here
@@ -867,6 +941,7 @@ int main(int argc, char** argv) {
     time_suite(r, false);
   }
   if (want("history")) history_suite();
+  if (want("pairs")) pair_suite(false);
   if (want("size")) {
     vf::Rng r = c.rng(3);
     size_suite(r);
@@ -881,5 +956,6 @@ int main(int argc, char** argv) {
   c.sample("format_time(t) at every day boundary 1970..2100 +- 1 s, Feb 28/29 -> Mar 1 and Dec 31 -> Jan 1 of every year to 9999, hh:59:59/23:59:59.999999 carries, random to 9999-12-31");
   c.sample("parse_size(format_size(s, incl)) for s = 2^(10k) * {1, 1023/1024, 1.005, 1.995, 999.994, 1023.99, ...} +- 2, 2^k +- 1, rounding ties, random");
   c.sample("timeval_to_usecs(usecs_to_timeval(x)) for 2^k +- 1, second boundaries, random to 2^63");
+  c.sample("call pairs f(a), f(a + d) [, f(a)] on one thread / two threads, e.g. format_time(t) then format_time(t + k*2^32 s + r s), format_duration(x, 0) then format_duration(x + 0.5 s, 0), parse_size of two texts in one buffer");
   return c.finish();
 }
